@@ -24,7 +24,7 @@ func (Item) TableName() string { return "items" }
 type Stored struct {
 	Row
 	Mark      int
-	DeletedAt string // quote(deleted_at): "NULL" or the stored text; "" when the table has no such column
+	DeletedAt string // quote(deleted_at) (comma-joined for several soft-delete columns): "NULL" or the stored text; "" when the table has no such column
 	Extra     string // further columns (foreign keys), printed
 }
 
@@ -34,17 +34,33 @@ func (s Stored) String() string {
 
 // TableSpec describes a table sharing the condition columns.
 type TableSpec struct {
-	Name  string
-	Soft  bool     // has deleted_at
-	Extra []string // extra integer columns (foreign keys)
+	Name     string
+	Soft     bool     // has deleted_at
+	SoftCols []string // soft-delete columns when there are several or the name differs (implies Soft)
+	Extra    []string // extra integer columns (foreign keys)
+}
+
+func (t TableSpec) softCols() []string {
+	if len(t.SoftCols) > 0 {
+		return t.SoftCols
+	}
+	if t.Soft {
+		return []string{"deleted_at"}
+	}
+	return nil
+}
+
+// Live reports whether no soft-delete column of the stored row is set.
+func (s Stored) Live() bool {
+	return strings.Trim(strings.ReplaceAll(s.DeletedAt, "NULL", ""), ",") == ""
 }
 
 // Create creates the table with the declared column types gorm's AutoMigrate
 // would use on SQLite (integer / text / datetime).
 func (t TableSpec) Create(db *sql.DB) error {
 	cols := "id integer PRIMARY KEY, ca integer, cb integer, cs text, cn integer, ct text, mark integer"
-	if t.Soft {
-		cols += ", deleted_at datetime"
+	for _, c := range t.softCols() {
+		cols += ", " + c + " datetime"
 	}
 	for _, e := range t.Extra {
 		cols += ", " + e + " integer"
@@ -79,8 +95,9 @@ func (t TableSpec) Insert(db *sql.DB, rows []InsertRow) error {
 			ct = "'" + *r.Ct + "'"
 		}
 		fmt.Fprintf(&b, "(%d,%d,%d,'%s',%s,%s,0", r.ID, r.Ca, r.Cb, r.Cs, cn, ct)
-		if t.Soft {
-			if r.DeletedAt == "" {
+		for i := range t.softCols() {
+			// the first soft-delete column carries the mark, further ones stay NULL
+			if r.DeletedAt == "" || i > 0 {
 				b.WriteString(",NULL")
 			} else {
 				b.WriteString(",'" + r.DeletedAt + "'")
@@ -98,8 +115,13 @@ func (t TableSpec) Insert(db *sql.DB, rows []InsertRow) error {
 // Dump reads the physical rows ordered by id.
 func (t TableSpec) Dump(db *sql.DB) ([]Stored, error) {
 	q := "SELECT id, ca, cb, cs, cn, ct, mark"
-	if t.Soft {
-		q += ", quote(deleted_at)"
+	soft := t.softCols()
+	if len(soft) > 0 {
+		parts := make([]string, len(soft))
+		for i, c := range soft {
+			parts[i] = "quote(" + c + ")"
+		}
+		q += ", " + strings.Join(parts, " || ',' || ")
 	}
 	for _, e := range t.Extra {
 		q += ", " + e
@@ -117,7 +139,7 @@ func (t TableSpec) Dump(db *sql.DB) ([]Stored, error) {
 		var mark sql.NullInt64
 		extra := make([]sql.NullInt64, len(t.Extra))
 		dst := []interface{}{&s.ID, &s.Ca, &s.Cb, &s.Cs, &cn, &ct, &mark}
-		if t.Soft {
+		if len(soft) > 0 {
 			dst = append(dst, &s.DeletedAt)
 		}
 		for i := range extra {
